@@ -779,7 +779,85 @@ func transformFuncs(kind int) (interface{}, interface{}) {
 	panic("unknown transform kind")
 }
 
+// dottedPath turns a reflect route into the dotted field-name path AddField takes, when there is one: every
+// hop but the last must be a struct-typed field (AddField resolves names with FieldByName hop by hop).
+func dottedPath(rt reflect.Type, route []int) (string, bool) {
+	var names []string
+	for i, idx := range route {
+		if rt.Kind() != reflect.Struct || idx >= rt.NumField() {
+			return "", false
+		}
+		f := rt.Field(idx)
+		names = append(names, f.Name)
+		rt = f.Type
+		if i < len(route)-1 && rt.Kind() != reflect.Struct {
+			return "", false
+		}
+	}
+	return strings.Join(names, "."), len(names) > 0
+}
+
+var buildCounter int
+
+// buildViaBuilder makes the entry through the builder API (BuildEntry / UseTag / StructMap().AddField / IgnoreKey /
+// Transform()...), as applications do; nil when the entry cannot be expressed that way.
+func (a *AD) buildViaBuilder() (ent *atlas.AtlasEntry) {
+	defer func() {
+		if recover() != nil {
+			ent = nil
+		}
+	}()
+	if a.t.rt.Kind() == reflect.Interface || a.t.rt.Kind() == reflect.Ptr {
+		return nil
+	}
+	core := atlas.BuildEntry(reflect.Zero(a.t.rt).Interface())
+	if a.tagd {
+		core = core.UseTag(a.tag)
+	}
+	switch a.kind {
+	case "smap":
+		b := core.StructMap()
+		for _, f := range a.flds {
+			if f.ignore {
+				b = b.IgnoreKey(f.name)
+				continue
+			}
+			path, ok := dottedPath(a.t.rt, f.route)
+			if !ok {
+				return nil
+			}
+			b = b.AddField(path, atlas.StructMapEntry{SerialName: f.name, OmitEmpty: f.omit})
+		}
+		ent = b.Complete()
+		// the builder must have resolved every name to the route and type the descriptor says
+		k := 0
+		for _, f := range a.flds {
+			got := ent.StructMap.Fields[k]
+			k++
+			if f.ignore {
+				continue
+			}
+			if len(got.ReflectRoute) != len(f.route) || got.Type != f.t.rt {
+				return nil
+			}
+			for i := range f.route {
+				if got.ReflectRoute[i] != f.route[i] {
+					return nil
+				}
+			}
+		}
+		return ent
+	}
+	return nil
+}
+
 func (a *AD) build(all []*AD) *atlas.AtlasEntry {
+	buildCounter++
+	if a.kind == "smap" && buildCounter%4 != 3 {
+		if ent := a.buildViaBuilder(); ent != nil {
+			return ent
+		}
+	}
 	ent := &atlas.AtlasEntry{Type: a.t.rt, Tagged: a.tagd, Tag: a.tag}
 	switch a.kind {
 	case "smap":
@@ -806,6 +884,16 @@ func (a *AD) build(all []*AD) *atlas.AtlasEntry {
 			gk = 14
 		}
 		mf, uf := transformFuncs(gk)
+		if buildCounter%4 != 3 && a.t.rt.Kind() != reflect.Interface && a.t.rt.Kind() != reflect.Ptr {
+			// through the builder API
+			core := atlas.BuildEntry(reflect.Zero(a.t.rt).Interface())
+			if a.tagd {
+				core = core.UseTag(a.tag)
+			}
+			mfn, mty := atlas.MakeMarshalTransformFunc(mf)
+			ufn, uty := atlas.MakeUnmarshalTransformFunc(uf)
+			return core.Transform().TransformMarshal(mfn, mty).TransformUnmarshal(ufn, uty).Complete()
+		}
 		ent.MarshalTransformFunc, ent.MarshalTransformTargetType = atlas.MakeMarshalTransformFunc(mf)
 		ent.UnmarshalTransformFunc, ent.UnmarshalTransformTargetType = atlas.MakeUnmarshalTransformFunc(uf)
 	case "un":
